@@ -42,3 +42,79 @@ def rps_check(inp):
 
 
 Oracle(SP + "ShuffleContinuumSampler._remove_pivot_segment", rps_cases, rps_check)
+
+
+# ------------------------------------------------------------------------------------------ ShuffleContinuumSampler (C16)
+def shuffle_cases(rng, tier):
+    labels = ["a", "b", None]
+    for n, mx in ((2, 3), (3, 3), (4, 2), (5, 2)):
+        for spec in common.grid_continua(rng, n, mx, 30, labels, allow_empty=False, count=6 if tier == "quick" else 40):
+            for pt in ("float_pivot", "int_pivot"):
+                gt = None if rng.random() < 0.5 else sorted(spec)[:max(2, n - 1)]
+                yield {"continuum": spec, "pivot_type": pt, "ground_truth": gt, "seed": rng.randint(0, 10 ** 6)}
+
+
+def shuffle_check(inp):
+    pa = pkg()
+    import numpy as np
+    c = common.make_continuum(inp["continuum"])
+    s = pa.ShuffleContinuumSampler(pivot_type=inp["pivot_type"])
+    s.init_sampling(c, inp["ground_truth"])
+    pivots = []
+    orig = s._random_from_segments
+
+    def rec(segments):
+        p = orig(segments)
+        pivots.append((float(p), [(float(x.start), float(x.end)) for x in segments]))
+        return p
+    s._random_from_segments = rec
+    np.random.seed(inp["seed"])
+    before = [(a, [(u.segment.start, u.segment.end, u.annotation) for u in c.iter_annotator(a)]) for a in c.annotators]
+    new = s.sample_from_continuum
+    gt = sorted(inp["ground_truth"] or inp["continuum"])
+    clause = ("sample = |GT| annotators, each a copy of one ground-truth annotator's units shifted by one pivot within the bounds "
+              "(wrapped by the continuum's length when the start passes the upper bound); pivots pairwise >= avg unit length / 2 apart")
+    if len(new.annotators) != len(gt) or not new:
+        return fail(clause + " [annotator count / non-empty]", inp, list(new.annotators), len(gt))
+    lo, hi = c.bounds
+    dist = c.avg_length_unit / 2
+    # the last |GT| recorded pivots belong to the returned sample (earlier rounds produced an empty continuum)
+    used = pivots[-len(gt):]
+    for k, ann in enumerate(new.annotators):
+        skey = lambda t: (t[0], t[1], t[2] is not None, t[2] or "")    # noqa: E731
+        units = sorted(((float(u.segment.start), float(u.segment.end), u.annotation) for u in new.iter_annotator(ann)), key=skey)
+        piv = used[k][0] if k < len(used) else None
+        ok = False
+        for g in gt:
+            ref = [(float(u.segment.start), float(u.segment.end), u.annotation) for u in c.iter_annotator(g)]
+            cands = [piv] if piv is not None else []
+            if piv is None and ref and units:
+                # fallback draw (no available segment left): recover the pivot from the units themselves
+                for (ns, _ne, _nl) in units:
+                    cands += [ns - ref[0][0], ns - ref[0][0] + (hi - lo)]
+            for p in cands:
+                sh = sorted(((s0 + p - (hi - lo) if s0 + p > hi else s0 + p, e0 + p - (hi - lo) if s0 + p > hi else e0 + p, l)
+                             for (s0, e0, l) in ref), key=skey)
+                if len(sh) == len(units) and all(abs(a[0] - b[0]) < 1e-6 and abs(a[1] - b[1]) < 1e-6 and a[2] == b[2] for a, b in zip(sh, units)):
+                    if piv is not None or (lo - 1e-9 <= p <= hi + 1e-9):
+                        ok = True
+        if not ok:
+            return fail(clause + " [not a wrapped translation of a ground-truth annotator by its pivot]", inp,
+                        {"annotator": ann, "units": units, "pivot": piv}, "shift of one ground-truth annotator")
+        if piv is not None and not (lo - 1e-9 <= piv <= hi + 1e-9):
+            return fail(clause + " [pivot within the bounds]", inp, piv, [lo, hi])
+        if inp["pivot_type"] == "int_pivot" and piv is not None and float(piv) != float(int(piv)):
+            return fail(clause + " [whole-number pivot in int mode]", inp, piv, "integer")
+    for i in range(len(used)):
+        for j in range(i):
+            if abs(used[i][0] - used[j][0]) < dist - 1e-9:
+                return fail(clause + " [separation]", inp, {"pivots": [u[0] for u in used], "min_dist": dist,
+                                                            "available_when_drawn": used[i][1]}, ">= min_dist apart")
+    after = [(a, [(u.segment.start, u.segment.end, u.annotation) for u in c.iter_annotator(a)]) for a in c.annotators]
+    if before != after:
+        return fail("sampling leaves the reference continuum unchanged", inp, after, before)
+    return None
+
+
+Oracle(SP + "ShuffleContinuumSampler.sample_from_continuum", shuffle_cases, shuffle_check)
+Oracle(SP + "ShuffleContinuumSampler._random_from_segments", shuffle_cases, shuffle_check)
